@@ -436,6 +436,10 @@ impl<T, Ptr: PointerFamily> MetaQueue<T, Ptr> {
 
     pub(crate) unsafe fn push_with_overflow_impl(&mut self, value: T) -> Option<T> {
         self.verify_init("push_with_overflow()");
+        if self.capacity == 0 {
+            // nothing fits: the pushed value itself is what overflows
+            return Some(value);
+        }
 
         let overridden_value = if self.len() == self.capacity() {
             unsafe { self.pop_impl() }
